@@ -126,6 +126,8 @@ def dw_ensures(c):
             ('C06-delay-only-lengthens', td >= t.duration.t),
             ('C06-no-model-no-delay', z3.Implies(t.delay.t == 0, td == t.duration.t)),
             ('C06-aft-is-return-time-plus-one', t.aft.t == c.n.now + 1),
+            ('C04-C02-task-stays-running-until-the-cluster-marks-it-finished',
+             c.n.heap('Task', 'task_status') == z3.Store(c.o.heap('Task', 'task_status'), t.t, TS('RUNNING'))),
             ('C15-flag-when-delay-added', z3.Implies(t.duration.t < td, t.delay_flag.t)),
             ('C15-offset-accumulates', z3.Implies(t.duration.t < td,
                                                   t.delay_offset.t == c.o.self.delay_offset.t + (td - t.duration.t)))]
@@ -136,6 +138,9 @@ def dw_step(c):
     out = []
     for f in ('flops', 'task_data', 'id', 'eft', 'est'):
         out.append((f'task-{f}-kept', getattr(c.n.self, f).t == getattr(c.o.self, f).t))
+    if c.x['to'] in (1, 2):
+        out.append(('C04-only-this-task-changes-status-and-it-becomes-running',
+                    c.n.heap('Task', 'task_status') == z3.Store(c.o.heap('Task', 'task_status'), c.o.self.t, TS('RUNNING'))))
     if c.x['to'] == 0:
         # first yield: the wait is the transfer wait (C03): recorded start = allocation time + wait
         out.append(('C03-wait-nonneg', c.n['_ydelay'].t >= 0))
